@@ -347,6 +347,41 @@ func c03Tables(run *PropRun) {
 				nOb++
 			}
 		}
+		// (1g) ESC ESC key in one read: two keys were typed before the letter - no ESC is swallowed: Esc, then the letter with Alt
+		{
+			var letter byte
+			for ch := byte('z'); ch >= 'a' && letter == 0; ch-- {
+				free := true
+				for _, k := range seqs {
+					if strings.HasPrefix(k, "\x1b"+string(ch)) || strings.HasPrefix(k, "\x1b\x1b") || k == string(ch) {
+						free = false
+					}
+				}
+				if free {
+					letter = ch
+				}
+			}
+			if letter != 0 {
+				kesc := e.constInt(modPath, "KeyEsc")
+				krune := e.constInt(modPath, "KeyRune")
+				altM := e.constInt(modPath, "ModAlt")
+				in := "\x1b\x1b" + string(letter)
+				evs, why := decodeDriver(db, fs, tp, in)
+				ok := why == "" && len(evs) == 2 && evs[0].Key == kesc && evs[0].Mod == 0 && evs[1].Key == krune && evs[1].Mod == altM
+				g := run.AddObligation(fmt.Sprintf("keytable[%s]/esc-esc-key", te.Name), "table", BoolT(ok),
+					fmt.Sprintf("ESC ESC %c in one read is Esc followed by Alt+%c: no ESC is swallowed (got %v %s)", letter, letter, evs, why))
+				g.ReplayGo = replayKeyTableImports(te.Name, []string{"bytes"}, fmt.Sprintf(`
+	s.cells.Resize(80, 24)
+	evs := s.collectEventsFromInput(bytes.NewBufferString(%q), false)
+	if len(evs) != 2 { fail("%%q produced %%d event(s), want Esc and Alt+rune", %q, len(evs)); return }
+	k0, ok0 := evs[0].(*EventKey)
+	k1, ok1 := evs[1].(*EventKey)
+	if !ok0 || !ok1 || k0.Key() != KeyEsc || k0.Modifiers() != ModNone || k1.Key() != KeyRune || k1.Modifiers() != ModAlt {
+		fail("%%q decoded to %%v, %%v: want Esc then Alt+rune", %q, evs[0], evs[1]); return
+	}`, in, in, in))
+				nOb++
+			}
+		}
 		// (1f) ESC immediately followed by a control byte: the key that byte gives alone (Ctrl-letter, Tab, Enter, Backspace),
 		// with Alt added - the modifiers it has alone are kept (evaluated with the timeout passed, so that a byte which
 		// also starts a longer sequence of this description is decided)
